@@ -39,8 +39,13 @@ def prepare(_):
     c5 = a5.cell_to_parent(c7, 5)
     sib = a5.cell_to_children(c5, 7)
     strays = [a5.lonlat_to_cell((near[0] + 3, near[1] - 2), 6), a5.lonlat_to_cell((near[0] - 40, near[1] + 10), 3)]
+    fc = to_lonlat(origins[3].axis)
+    fc = ((fc[0] + 180) % 360 - 180, fc[1])
+    centre_a = (fc[0] + math.degrees(3e-9), fc[1] + math.degrees(1e-9))      # 2 cm from a face centre: the small-angle branches
+    centre_b = (fc[0] - math.degrees(2e-9), fc[1] + math.degrees(4e-9))
+    c29 = a5.lonlat_to_cell(centre_a, 29)
     return {'edge': edge_lonlat, 'near': near, 'c7': c7, 'cb': cb, 'c4': c4, 'c5': c5, 'sib': sib, 'strays': strays,
-            'mid': (near[0] + 8.0, near[1] - 6.0)}
+            'mid': (near[0] + 8.0, near[1] - 6.0), 'centre_a': centre_a, 'centre_b': centre_b, 'c29': c29}
 
 
 def build_menu(k):
@@ -50,24 +55,61 @@ def build_menu(k):
         'lonlat_to_cell_r7_edge': lambda: a5.lonlat_to_cell(k['near'], 7),
         'cell_to_lonlat': lambda: a5.cell_to_lonlat(k['c7']),
         'boundary_seg2_edge': lambda: a5.cell_to_boundary(k['cb'], {'segments': 2}),
-        'boundary_auto_r4': lambda: a5.cell_to_boundary(k['c4']),
+        'boundary_auto_r4': lambda: a5.cell_to_boundary(k['c5']),        # automatic segment count (resolution 5: 2 per edge)
         'compact': lambda: a5.compact(list(reversed(k['sib'])) + k['strays']),
-        'uncompact': lambda: a5.uncompact([k['c5'], k['strays'][1]], 7),
+        'uncompact': lambda: a5.uncompact([k['c5'], k['strays'][0]], 7),
         'children_parent': lambda: (a5.cell_to_children(k['c5'], 7), a5.cell_to_parent(k['c7'], 2), a5.get_res0_cells()),
         'scalars': lambda: (a5.get_resolution(k['c7']), a5.u64_to_hex(k['c7']), a5.hex_to_u64('%x' % k['c7']), a5.get_num_cells(7), a5.cell_area(7)),
         'lonlat_to_cell_r12': lambda: a5.lonlat_to_cell(k['edge'], 12),
         'cell_to_lonlat_r4': lambda: a5.cell_to_lonlat(k['c4']),
         'boundary_closed_seg1': lambda: a5.cell_to_boundary(k['c7'], {'segments': 1, 'closed_ring': False}),
+        'lonlat_to_cell_r29_centre_a': lambda: a5.lonlat_to_cell(k['centre_a'], 29),
+        'lonlat_to_cell_r29_centre_b': lambda: a5.lonlat_to_cell(k['centre_b'], 29),
+        'cell_to_lonlat_r29_centre': lambda: a5.cell_to_lonlat(k['c29']),
+        'scalars_b': lambda: (a5.get_num_cells(5), a5.cell_area(11), a5.get_resolution(k['c4']), a5.u64_to_hex(k['c4'])),
+        'scalars_c': lambda: (a5.get_num_cells(9), a5.cell_area(3), a5.get_num_cells(2)),
+        'uncompact_low': lambda: a5.uncompact([a5.get_res0_cells()[4]], 2),
     }
 
 
-A_QUICK = ['lonlat_to_cell_r2', 'lonlat_to_cell_r7_edge', 'cell_to_lonlat', 'boundary_seg2_edge', 'boundary_auto_r4', 'compact', 'uncompact',
-           'children_parent', 'scalars', 'lonlat_to_cell_r12']
-B_QUICK = ['lonlat_to_cell_r7_edge', 'cell_to_lonlat', 'boundary_seg2_edge', 'compact']
+def probe_values(k):
+    """calls made after every explored schedule, single-threaded: an interleaving must not leave the library corrupted for later callers"""
+    import a5
+    return (tuple(a5.get_num_cells(r) for r in range(0, 31)), a5.cell_area(29), a5.cell_area(0),
+            a5.cell_to_lonlat(k['c7']), a5.lonlat_to_cell(k['near'], 7), a5.cell_to_boundary(k['c4'], {'segments': 1}),
+            a5.cell_to_children(k['c5']), a5.compact(list(k['sib'][:4])), a5.uncompact([k['c5']], 6), a5.get_res0_cells()[3])
+
+
+GEO_A = ['lonlat_to_cell_r2', 'lonlat_to_cell_r7_edge', 'cell_to_lonlat', 'boundary_seg2_edge', 'boundary_auto_r4', 'lonlat_to_cell_r29_centre_a']
+GEO_B = ['lonlat_to_cell_r7_edge', 'cell_to_lonlat', 'boundary_seg2_edge', 'lonlat_to_cell_r29_centre_b']
+INT_A = ['compact', 'uncompact', 'children_parent', 'scalars', 'scalars_b', 'uncompact_low']
+INT_B = ['compact', 'scalars_c', 'uncompact_low']
+B_QUICK = GEO_B
+
+
+def quick_pairs():
+    """(A, B, warm): geometric x geometric, integer x integer, and the two cross families; warm library against one B"""
+    out = []
+    for a in GEO_A:
+        for b in GEO_B:
+            if a == 'lonlat_to_cell_r29_centre_a' and b in ('lonlat_to_cell_r7_edge', 'boundary_seg2_edge'):
+                continue          # the long resolution-29 call is paired with the calls that share its small-angle branches
+            out.append((a, b, False))
+        out.append((a, 'scalars_c', False))
+        if a != 'lonlat_to_cell_r29_centre_a':
+            out.append((a, 'boundary_seg2_edge', True))
+    for a in INT_A:
+        for b in INT_B:
+            out.append((a, b, False))
+        out.append((a, 'lonlat_to_cell_r7_edge', False))
+    out.append(('cell_to_lonlat_r29_centre', 'lonlat_to_cell_r29_centre_b', False))
+    return out
 
 
 def solo(task):
     name, k = task
+    if name == '<probe>':
+        return name, sched.call_value(lambda: probe_values(k))
     return name, sched.call_value(build_menu(k)[name])
 
 
@@ -86,6 +128,7 @@ def pair(task):
     gc.freeze()          # fewer copy-on-write faults in the forked children
     gc.disable()
     ex = sched.Explorer(prefix, gran)
+    ex.after = lambda: probe_values(k)
     res = ex.explore(menu[an], menu[bn], only)
     temp = 'warm' if warm else 'cold'
     base = f'{an}|{bn}|{temp}|{gran}'
@@ -112,9 +155,17 @@ def pair(task):
             acc.violation(skey + ':A', f'{an} preempted at {site[0]}:{site[2]} ({site[1]}) by {bn}: {an} {what}', case)
             bad += 1
             continue
+        probe = None
+        if isinstance(vb, tuple) and len(vb) == 3 and vb[0] == 'with-probe':
+            vb, probe = vb[1], vb[2]
         if vb != solo_vals[bn]:
             what = 'raised ' + vb[1] if vb[0] == 'exc' else 'returned a different value'
             acc.violation(skey + ':B', f'{bn} run inside {an} at {site[0]}:{site[2]} ({site[1]}): {bn} {what}', case)
+            bad += 1
+            continue
+        if probe is not None and probe != solo_vals['<probe>']:
+            what = 'raised ' + probe[1] if probe[0] == 'exc' else 'returned different values'
+            acc.violation(skey + ':after', f'after {bn} ran inside {an} at {site[0]}:{site[2]} ({site[1]}) both returned correct values, but later single-threaded calls {what}: the library state was corrupted', case)
             bad += 1
             continue
         acc.n['validated'] += 1
@@ -145,28 +196,28 @@ def run(tier, t0, only_pairs=None):
 
     k = one(prepare, None)
     names = sorted(build_menu(k))
-    solo_vals = dict(many(solo, [(n, k) for n in names]))
-    solo2 = dict(many(solo, [(n, k) for n in names]))
-    for n in names:
+    solo_vals = dict(many(solo, [(n, k) for n in names + ['<probe>']]))
+    solo2 = dict(many(solo, [(n, k) for n in names + ['<probe>']]))
+    for n in names + ['<probe>']:
         if solo_vals[n] != solo2[n]:
             raise RuntimeError(f'pristine single call {n} is not deterministic')
         if solo_vals[n][0] != 'ok':
             acc.violation(f'c16:solo-raises:{n}', f'{n} raises when run alone: {solo_vals[n][1]}', {'A': n, 'B': n, 'warm': False, 'gran': 'line', 'k': 0})
+    tasks = []
     if tier == 'quick':
-        A, B = A_QUICK, B_QUICK
+        for an, bn, warm in quick_pairs():
+            tasks.append((an, bn, warm, 'line', k, solo_vals, None))
+        A, B = sorted({t[0] for t in tasks}), sorted({t[1] for t in tasks})
     else:
         A, B = names, names
-    tasks = []
-    for an in A:
-        for bn in B:
-            for warm in (False, True):
-                if warm and tier == 'quick' and bn != 'boundary_seg2_edge':
-                    continue      # quick: warm library only against one B (the cold runs already cover every cache-filling race)
-                tasks.append((an, bn, warm, 'line', k, solo_vals, None))
+        for an in A:
+            for bn in B:
+                for warm in (False, True):
+                    tasks.append((an, bn, warm, 'line', k, solo_vals, None))
     if tier == 'thorough':
-        short = ['cell_to_lonlat', 'scalars', 'children_parent', 'uncompact', 'compact', 'cell_to_lonlat_r4', 'lonlat_to_cell_r2']
+        short = ['cell_to_lonlat', 'scalars', 'scalars_b', 'uncompact_low', 'children_parent', 'uncompact', 'compact', 'cell_to_lonlat_r4', 'lonlat_to_cell_r2', 'cell_to_lonlat_r29_centre']
         for an in short:
-            for bn in B_QUICK:
+            for bn in B_QUICK + ['scalars_c']:
                 tasks.append((an, bn, False, 'instruction', k, solo_vals, None))
     tasks = common.rotate(tasks, common.seed())
     allsites = set()
@@ -187,8 +238,8 @@ def run(tier, t0, only_pairs=None):
     acc.sample({'A': 'lonlat_to_cell_r7_edge', 'B': 'boundary_seg2_edge', 'schedule': 'A runs to its k-th line event inside a5/, B runs to completion, A resumes', 'k': 137})
     acc.sample({'menu_constants': {kk: (hex(v) if isinstance(v, int) else v) for kk, v in k.items() if kk != 'sib'}})
     acc.sample({'some_sites': sorted(allsites)[:5]})
-    rule = (f'{len(A)} calls A x {len(B)} calls B x (cold, warm library): every line event of A inside the a5 package is a preemption point at which B runs to completion '
-            '(thorough: also every bytecode instruction for the short calls); a state is (pair, temperature, point); non-trivial counts distinct (file, function, line) sites per pair')
+    rule = (f'{len(tasks)} explorations over {len(A)} calls A and {len(B)} calls B (cold and warm library): every line event of A inside the a5 package is a preemption point at which B runs to completion '
+            '(thorough: full 18x18 product and every bytecode instruction for the short calls); after every schedule a fixed set of probe calls is made single-threaded; a state is (pair, temperature, point); non-trivial counts distinct (file, function, line) sites per pair')
     return common.finish(PID, LEVEL, tier, acc, t0, rule, [
         'context bound 2 (one preemption of A by a complete B, both role assignments); two or more preemptions and free-threaded memory effects are not explored',
         'values compared bit-for-bit (floats by hex) with the same call run alone in a process forked from a pristine import',
@@ -204,6 +255,6 @@ def replay(case):
         return res
     k = one(prepare, None)
     names = sorted(build_menu(k))
-    solo_vals = dict(one(solo, (n, k)) for n in names)
+    solo_vals = dict(one(solo, (n, k)) for n in names + ['<probe>'])
     part = one(pair, (case['A'], case['B'], case['warm'], case['gran'], k, solo_vals, [case['k']] if case['k'] else None))
     return [(kk, w) for kk, w, _ in part.violations]
